@@ -92,7 +92,7 @@ def gen_case(rng, focus, big=False):
     nruns = 1
     if focus == 'C04':
         nruns = rng.choice([2, 2, 3, 4])
-    elif focus in ('C01', 'C03') and rng.random() < 0.3:
+    elif focus in ('C01', 'C02', 'C03') and rng.random() < 0.3:
         nruns = 2
     if focus == 'C03':
         r = rng.random()
@@ -134,9 +134,16 @@ def gen_case(rng, focus, big=False):
         if i > 0:
             run['lost'] = [t for t in range(n) if rng.random() < 0.3]
         runs.append(run)
+    if focus == 'C02':
+        for run in runs[1:]:
+            run['lost'] = list(range(n))      # C02 speaks about runs from the empty environment
     case['runs'] = runs
     if nruns > 1 and rng.random() < 0.4:
         case['reuse'] = True      # the same Scheduler object schedules every run
+    elif nruns > 1 and not case.get('stages') and rng.random() < 0.4:
+        case['reuse'] = 'backend'  # the same backend object serves a new Scheduler with other edges
+        for run in runs[1:]:
+            run['hard'], run['soft'] = gen_graph(rng, n)
     return case
 
 
@@ -168,6 +175,11 @@ CORPUS = [
     {'n': 2, 'hard': [[], [0]], 'soft': [[], []], 'workers': 1, 'clock0': 9, 'started0': [1, 1],
      'init': [['FAILED', None, 1, 2], ['SKIPPED', None, None, None]],
      'runs': [{'outcomes': ['done', 'done'], 'strategy': 'uniform', 'seed': 8}]},
+    # C02: one backend object shared by two Schedulers whose graphs give the same tasks other edges
+    {'n': 3, 'hard': [[], [0], []], 'soft': [[], [], [0]], 'workers': 2, 'reuse': 'backend',
+     'runs': [{'outcomes': ['raise', 'done', 'done'], 'strategy': 'uniform', 'seed': 35},
+              {'outcomes': ['raise', 'done', 'done'], 'lost': [0, 1, 2], 'hard': [[], [], [0]], 'soft': [[], [0], []],
+               'strategy': 'uniform', 'seed': 36}]},
     # C03: the same scheduler object schedules twice
     {'n': 2, 'hard': [[], [0]], 'soft': [[], []], 'workers': 2, 'reuse': True,
      'runs': [{'outcomes': ['done', 'done'], 'strategy': 'uniform', 'seed': 19},
@@ -409,6 +421,14 @@ class FakeCtx:
 ORACLES = {'C01': oracle_c01, 'C02': oracle_c02, 'C03': oracle_c03, 'C04': oracle_c04}
 
 
+def crun(case, run):
+    '''the case as seen by run `run` (a run may schedule the same tasks with other edges)'''
+    spec = case['runs'][run['irun']] if run.get('irun') is not None and run['irun'] < len(case['runs']) else {}
+    if spec.get('hard') is not None and not case.get('stages'):
+        return dict(case, hard=spec['hard'], soft=spec['soft'])
+    return case
+
+
 def brief(case):
     return json.dumps({k: case[k] for k in ('n', 'hard', 'soft', 'stages', 'workers', 'reuse') if k in case})
 
@@ -520,7 +540,8 @@ def run(ctx, focus):
             continue
         nt = False
         for run_ in res['runs']:
-            ORACLES[focus](ctx, case, run_)
+            vcase = crun(case, run_)
+            ORACLES[focus](ctx, vcase, run_)
             ctx.count('result_' + run_['result'])
             ctx.count('events', len(run_['trace']))
             if run_['cyclic']:
@@ -531,13 +552,13 @@ def run(ctx, focus):
                 ctx.count('outcome_' + kind.partition(':')[0])
             nt = nt or nontrivial(case, run_)
             if not case.get('stages') and not run_['cyclic'] and run_.get('impl_deps') is not None \
-                    and (run_['impl_deps'] != full_deps(case) or run_['impl_hdeps'] != hard_deps(case)):
+                    and (run_['impl_deps'] != full_deps(vcase) or run_['impl_hdeps'] != hard_deps(vcase)):
                 ctx.mismatch(f'the graphs prepared by Scheduler.__init__ (full {run_["impl_deps"]}, hard '
                              f'{run_["impl_hdeps"]}) are not the generated ones :: {brief(case)}',
                              replay_case(case, run_))
             if run_.get('prep_error'):
                 ctx.mismatch(f'cannot read the prepared graphs: {run_["prep_error"]}', replay_case(case, run_))
-            coq_items.append(coq_case(case, run_))
+            coq_items.append(coq_case(vcase, run_))
             owners.append((case, run_))
         sample = dict(case)
         sample['schedules'] = [[ev[0] for ev in r['trace']] for r in res['runs']]
